@@ -259,6 +259,12 @@ func runC19(c *fw.Ctx) {
 		if r.Intn(3) == 0 {
 			extras = extras[:1+r.Intn(len(extras))]
 		}
+		// bare literals and symbols as top-level forms (evaluated for effect only); an unbound bare symbol must fail
+		// on every route
+		extras = append(extras, canon.In(5), canon.St("bare string"), sy("two-params"), canon.Ke("bare-keyword"))
+		if r.Intn(4) == 0 {
+			extras = append(extras, sy("zz-unbound-bare-symbol"))
+		}
 		forms = append(forms[:len(forms)-1], append(extras, forms[len(forms)-1])...)
 		ls := []c19Layout{layouts[0], layouts[1+lr.Intn(len(layouts)-1)], layouts[1+lr.Intn(len(layouts)-1)], layouts[1+lr.Intn(len(layouts)-1)]}
 		doForm := canon.Li(append([]*canon.Node{canon.Sy("do")}, forms...)...)
